@@ -20,6 +20,7 @@ func runC04(c *Ctx) {
 	ruleLineSanitised(c)
 	ruleEmissionGrammar(c, "R04.d", false)
 	ruleNoWriteAfterFailedWrite(c, "R04.e")
+	ruleNoWriteThroughView(c, "R04.f")
 }
 
 func ruleSingleWriteSite(c *Ctx) {
